@@ -192,8 +192,9 @@ func checkFieldAssignment(
 		return nil
 	}
 
+	receiverType = types.Unalias(receiverType)
 	if ptr, ok := receiverType.(*types.Pointer); ok {
-		receiverType = ptr.Elem()
+		receiverType = types.Unalias(ptr.Elem())
 	}
 
 	named, ok := receiverType.(*types.Named)
@@ -246,8 +247,9 @@ func checkIndexAssignment(
 		return nil
 	}
 
+	receiverType = types.Unalias(receiverType)
 	if ptr, ok := receiverType.(*types.Pointer); ok {
-		receiverType = ptr.Elem()
+		receiverType = types.Unalias(ptr.Elem())
 	}
 
 	named, ok := receiverType.(*types.Named)
@@ -322,8 +324,9 @@ func checkFieldIncDec(
 		return nil
 	}
 
+	receiverType = types.Unalias(receiverType)
 	if ptr, ok := receiverType.(*types.Pointer); ok {
-		receiverType = ptr.Elem()
+		receiverType = types.Unalias(ptr.Elem())
 	}
 
 	named, ok := receiverType.(*types.Named)
@@ -443,8 +446,9 @@ func checkCompoundLHS(
 		return nil
 	}
 
+	receiverType = types.Unalias(receiverType)
 	if ptr, ok := receiverType.(*types.Pointer); ok {
-		receiverType = ptr.Elem()
+		receiverType = types.Unalias(ptr.Elem())
 	}
 
 	named, ok := receiverType.(*types.Named)
